@@ -1,6 +1,7 @@
 package main
 
 import (
+	"crypto/sha1"
 	"fmt"
 	"go/ast"
 	"go/token"
@@ -490,7 +491,22 @@ func (w *World) typeID(t types.Type) int {
 	if id, ok := w.typeIDs[key]; ok {
 		return id
 	}
-	id := len(w.typeIDs) + 1
+	// content-based, stable across runs and across how much of the repository has been looked at (sequential numbers made the
+	// text of a query depend on unrelated functions, which perturbs the solvers and defeats the cache)
+	h := sha1.Sum([]byte(key))
+	id := 1000 + int(h[0])<<16 + int(h[1])<<8 + int(h[2])
+	for {
+		clash := false
+		for _, v := range w.typeIDs {
+			if v == id {
+				clash = true
+			}
+		}
+		if !clash {
+			break
+		}
+		id++
+	}
 	w.typeIDs[key] = id
 	w.typeOrd = append(w.typeOrd, key)
 	return id
@@ -500,7 +516,11 @@ func (w *World) strLit(s string) string {
 	if c, ok := w.strLits[s]; ok {
 		return c
 	}
-	c := fmt.Sprintf("strlit!%d", len(w.strLits))
+	h := sha1.Sum([]byte(s))
+	c := fmt.Sprintf("strlit!%x", h[:5])
+	for litText[c] != "" && litText[c] != s {
+		c += "x"
+	}
 	w.strLits[s] = c
 	w.strOrd = append(w.strOrd, s)
 	litText[c] = s
